@@ -298,6 +298,19 @@ def hstep {κ : Type} (cmp : Table → Table → κ → Outcome Table) (st : HSt
     | some t => st.pushFresh zeroTable (.table t)
     | none => st.pushFault
 
+/-- the semantics of a PARTLY REPAIRED package: `GetCodonTable` returns a deep copy (fresh cell), everything else as it
+is (`OptimizeTable` still writes in place through its receiver).  Used by the C08 driver only, to recognise such a
+repair: with it C08-alias-default is gone and C08-receiver-mutated remains.  (A copying `OptimizeTable` needs no
+model of its own: nothing then ever writes to a shared cell, which is value semantics.) -/
+def hstepCopyGet {κ : Type} (cmp : Table → Table → κ → Outcome Table) (st : HState) : Op κ → HState
+  | .get id =>
+    match st.defaults.lookup id with
+    | some ht => match deref st.heap ht with
+      | some t => st.pushFresh t (.table t)
+      | none => st.pushFault
+    | none => st.pushFresh zeroTable (.table zeroTable)
+  | op => hstep cmp st op
+
 def runHeapFrom {κ : Type} (cmp : Table → Table → κ → Outcome Table) (st : HState) (hist : List (Op κ)) : HState :=
   hist.foldl (hstep cmp) st
 
